@@ -20,7 +20,8 @@ RULE = ('One case = 2-4 interpreters running generated charts that send events (
         'one plain Event (same name and parameters, delay included) to each binding still attached at that moment, in binding '
         'order; nothing else (no notify, no consumed external event, nothing after detach); and every sent event must later be '
         'consumed exactly once as an internal event by its sender. Non-trivial = distinct (topology, step) with >= 2 bindings '
-        'and >= 2 sends in one step.')
+        'and >= 2 sends in one step. 1 case in 12: two interpreters bound in a cycle and stepped by two threads under the controlled '
+        'scheduler (deadlock detection, delivery exactly once and in order after a drain).')
 ASSUMPTIONS = ['bind() is only called at step boundaries (the statement does not say whether a target bound during a delivery receives '
                'the event being delivered); detach() is also called from inside callbacks',
                'generated charts per DESIGN §2']
